@@ -165,6 +165,40 @@ def pop (s : St) : St × Outcome :=
 
 def onCur (s : St) (r : Frame × Outcome) : St × Outcome := (⟨r.1, s.parents⟩, r.2)
 
+/-- `terminationResource` recorded in a ContextTerminationError (commit 0426709): which hard limit
+was reached, if any -/
+inductive TermRes where
+  | none      -- KillContext / SetStopLevel(HardStop): no limit involved
+  | cpu
+  | mem
+  deriving DecidableEq, Repr, Inhabited
+
+/-- the resource recorded when operation `o` terminates frame `f`: requireCPU / requireMem first
+test the hard-stop flag (KillContext, no resource), then the limit -/
+def killCause (f : Frame) : Op → TermRes
+  | .reqCpu _ => if f.hardStopped then .none else .cpu
+  | .reqMem _ => if f.hardStopped then .none else .mem
+  | _ => .none
+
+/-- the resource recorded when the charge made by PopContext terminates the parent `p` -/
+def popCause (p c : Frame) : TermRes :=
+  match p.requireCPU c.used.Cpu with
+  | (_, .ok) => killCause (p.requireCPU c.used.Cpu).1 (.reqMem c.used.Memory)
+  | _ => killCause p (.reqCpu c.used.Cpu)
+
+/-- `propagateTermination(child, e)` called in the parent `m` after the child was popped and
+charged: if the limit the child ran into is exactly what `m` had left when the child was pushed,
+`m` is terminated too (no-op unless `m` is live). uint64 arithmetic as in the Go code. -/
+def Frame.propagate (m child : Frame) : TermRes → Frame × Outcome
+  | .none => (m, .ok)
+  | .cpu =>
+    if BitVec.ult 0#64 m.hard.Cpu && child.hard.Cpu == m.hard.Cpu - (m.used.Cpu - child.used.Cpu) && m.live
+    then (m.kill, .terminated) else (m, .ok)
+  | .mem =>
+    if BitVec.ult 0#64 m.hard.Memory && child.hard.Memory == m.hard.Memory - (m.used.Memory - child.used.Memory)
+      && m.live
+    then (m.kill, .terminated) else (m, .ok)
+
 def step (s : St) : Op → St × Outcome
   | .push d => (push s d, .ok)
   | .pop => pop s
